@@ -31,9 +31,24 @@
 //!   reopen <seq>     seq = comma separated flush|close|openro|openrw|intern|move; answer:
 //!                    per-step results, `|`, the full observation
 //!
+//! EXTENSION histories (case parameter `stages=<n0>:<o0>,<n1>:<o1>,…`): stage j is the collection of the
+//! first n_j datasets in which dataset i is stored under the internal location `<o_j + i>` — the locations
+//! are RENUMBERED from stage to stage, so that one location names different sketches in different stages
+//! (`check_superset` does not look at locations).  `fs`: the blobs are files `<stage dir>/<o_j + i>` behind
+//! an `FSStorage` rooted at the stage's own directory; `mem`: `Collection::from_sigs` over o_j leading
+//! signatures that the selection drops (another k-mer size) followed by the n_j datasets — blobs named by
+//! input position in a memory storage, which cannot be reopened: the step internalizes at once.
+//!   mk <j> fs|mem    `RevIndex::create(dir, stage j)` (+ internalize_storage for `mem`), the handle stays
+//!                    open (read-write); answer: `ok`, `|`, the full observation
+//!   ext <j> fs|mem   `update(stage j)` (+ internalize_storage for `mem`) on the open read-write handle;
+//!                    answer: `ok` / `closed` / `err`, `|`, the full observation (a read-only handle: the
+//!                    update panics at its first write)
+//! These steps are interleaved with `reopen` sequences.
+//!
 //! Full observation = H (scan of the HASHES column family), P (PROCESSED), M (version / manifest
 //! rows / storage spec), X (number of keys in STORAGE), C (counter_for_query of q), G (gather of q),
-//! S (collection().sig_for_dataset(i) for every i: name, hashes, md5 equal to the original's).
+//! S (collection().sig_for_dataset(i) for every i: name, hashes, `md5ok` iff the md5 of the signature
+//! handed out equals BOTH the md5 of the manifest record i of the open index and the md5 of dataset i).
 use camino::Utf8PathBuf;
 use sourmash::index::revindex::verif_hooks as vh;
 use sourmash::index::revindex::{RevIndex, RevIndexOps};
@@ -281,6 +296,104 @@ fn gen(a: &Args) {
             o.op(&format!("reopen openrw,intern,close,{},intern,{}", if i % 2 == 0 { "openro" } else { "openrw" }, tail));
         }
     }
+
+    // stream 6 (generated last): EXTENSION histories.  create(stage 0), then one or two update(stage j)
+    // steps, with flush / close / open / internalize / move sequences in between; the internal locations
+    // are renumbered from stage to stage (a location names different sketches in different stages)
+    let nex = if thorough { 1500 } else { 70 };
+    for i in 0..nex {
+        let nd = r.range(3, 7) as usize;
+        let mut c = rand_coll(&mut r, nd, 8, 14);
+        if i % 3 == 0 {
+            // duplicates: a stale blob can only be told by its name
+            let (a, b) = (r.below(nd as u64) as usize, r.below(nd as u64) as usize);
+            c[a] = c[b].clone();
+        }
+        let q = rand_query(&mut r, &c);
+        let nst = if nd >= 4 && r.chance(1, 2) { 3 } else { 2 };
+        // stage sizes: increasing, the first one >= 2 mostly (a collision needs two overlapping ranges)
+        let mut sizes: Vec<usize> = vec![];
+        let lo0 = if r.chance(1, 6) { 1 } else { 2 };
+        let n0 = r.range(lo0, (nd - nst + 1) as u64) as usize;
+        sizes.push(n0);
+        for k in 1..nst {
+            let lo = sizes[k - 1] + 1;
+            let hi = nd - (nst - 1 - k);
+            sizes.push(if k + 1 == nst { nd } else { r.range(lo as u64, hi as u64) as usize });
+        }
+        let mut offs: Vec<usize> = vec![];
+        for k in 0..nst {
+            let o = if k == 0 {
+                *r.pick(&[0usize, 0, 0, 1, 2])
+            } else if r.chance(1, 5) {
+                offs[k - 1]
+            } else {
+                // different from the previous stage's, small: the ranges overlap
+                let mut o = r.below(3) as usize;
+                if o == offs[k - 1] {
+                    o = (o + 1) % 3;
+                }
+                o
+            };
+            offs.push(o);
+        }
+        let stages: Vec<String> = sizes.iter().zip(&offs).map(|(n, o)| format!("{}:{}", n, o)).collect();
+        o.case(&format!(
+            "coll={} base=0 via=create threads=1 how=kill q={} fs={} stages={}",
+            show_coll(&c),
+            show_nats(q.iter().copied()),
+            if i % 5 == 0 { "disk" } else { "shm" },
+            stages.join(",")
+        ));
+        let kind = |r: &mut Rng| if r.chance(1, 2) { "fs" } else { "mem" };
+        o.op(&format!("mk 0 {}", kind(&mut r)));
+        // handle state after `mk`: open read-write
+        let mut state = 2; // 0 closed, 1 read-only, 2 read-write
+        for k in 1..nst {
+            let mut toks: Vec<&str> = vec![];
+            let len = r.range(0, 4);
+            for _ in 0..len {
+                let t = *r.pick(&["flush", "close", "openro", "openrw", "intern", "intern", "move"]);
+                match t {
+                    "close" => state = 0,
+                    "openro" if state == 0 => state = 1,
+                    "openrw" if state == 0 => state = 2,
+                    _ => {}
+                }
+                toks.push(t);
+            }
+            // an update needs a read-write handle (now and then it does not get one)
+            if !r.chance(1, 10) {
+                if state == 1 {
+                    toks.push("close");
+                    state = 0;
+                }
+                if state == 0 {
+                    toks.push("openrw");
+                    state = 2;
+                }
+            }
+            if !toks.is_empty() {
+                o.op(&format!("reopen {}", toks.join(",")));
+            }
+            o.op(&format!("ext {} {}", k, kind(&mut r)));
+            if state != 2 {
+                // the update did not happen (no handle / a read-only one, lost in the panic): once more
+                o.op("reopen openrw");
+                state = 2;
+                o.op(&format!("ext {} {}", k, kind(&mut r)));
+            }
+        }
+        // what a later process sees: internalize (mostly), close, move, open
+        let tail = match r.below(6) {
+            0 => "close,openro".to_string(),
+            1 => "intern,close,move,openro".to_string(),
+            2 => format!("intern,{},close,openrw", rand_seq(&mut r, 2)),
+            3 => format!("{},intern,close,openro", rand_seq(&mut r, 2)),
+            _ => "intern,close,openro".to_string(),
+        };
+        o.op(&format!("reopen {}", tail));
+    }
 }
 
 // ------------------------------------------------------------------------------------ exec
@@ -300,6 +413,10 @@ struct St {
     idx: PathBuf,
     sig_dir: PathBuf,
     moves: u32,
+    /// `stages=` of the case line: (number of datasets, location offset)
+    stages: Vec<(usize, usize)>,
+    /// a fresh directory per stage collection that is built
+    nstage_dirs: u32,
 }
 
 fn new_state() -> St {
@@ -317,6 +434,8 @@ fn new_state() -> St {
         sig_dir: PathBuf::new(),
         handle: None,
         moves: 0,
+        stages: vec![],
+        nstage_dirs: 0,
     }
 }
 
@@ -405,7 +524,8 @@ fn show_scan(s: &Scan) -> String {
         p,
         s.version.map(|v| v.to_string()).unwrap_or("-".into()),
         s.manifest_rows.map(|v| v.to_string()).unwrap_or("-".into()),
-        s.spec.clone().unwrap_or("-".into()),
+        // an `fs://<directory>` spec is printed without the (scratch) directory
+        s.spec.as_ref().map(|x| if x.starts_with("fs://") { "fs://".to_string() } else { x.clone() }).unwrap_or("-".into()),
         s.nstorage
     )
 }
@@ -483,7 +603,8 @@ fn answers(st: &St, idx: &RevIndex) -> String {
                     Sketch::MinHash(mh) => mh.mins(),
                     _ => vec![],
                 };
-                let md5ok = i < st.sigs.len() && sig.md5sum() == st.sigs[i].md5sum();
+                let rec_md5 = idx.collection().record_for_dataset(i as u32).map(|r| r.md5().clone()).unwrap_or_default();
+                let md5ok = i < st.sigs.len() && sig.md5sum() == st.sigs[i].md5sum() && sig.md5sum() == rec_md5;
                 ss.push(format!("{}:{}:{}", sig.name(), show_nats(mins), if md5ok { "md5ok" } else { "md5BAD" }));
             }
             Err(_) => ss.push("err".into()),
@@ -600,6 +721,15 @@ fn setup(st: &mut St, ws: &[&str]) {
             "threads" => st.threads = v.parse().unwrap(),
             "how" => st.how = v.into(),
             "q" => st.q = parse_nats(v),
+            "stages" => {
+                st.stages = v
+                    .split(',')
+                    .map(|x| {
+                        let (n, o) = x.split_once(':').unwrap();
+                        (n.parse().unwrap(), o.parse().unwrap())
+                    })
+                    .collect()
+            }
             _ => {}
         }
     }
@@ -623,6 +753,80 @@ fn setup(st: &mut St, ws: &[&str]) {
         let idx = RevIndex::create(&st.idx, fs_collection(&st.paths[..st.base]), false).unwrap();
         drop(idx);
     }
+}
+
+/// the collection of stage `j` (see the module comment)
+fn stage_collection(st: &mut St, j: usize, mem: bool) -> sourmash::collection::CollectionSet {
+    use sourmash::collection::Collection;
+    use sourmash::manifest::{Manifest, Record};
+    use sourmash::prelude::*;
+    use sourmash::storage::{FSStorage, InnerStorage};
+    let (n, off) = st.stages[j];
+    let n = n.min(st.sigs.len());
+    if mem {
+        // `off` leading signatures of another k-mer size: they take the input positions 0..off and are
+        // dropped by the selection
+        let mut sigs: Vec<Signature> = vec![];
+        for k in 0..off {
+            let mut mh = sourmash::sketch::minhash::KmerMinHash::new(1, 31, sourmash::encodings::HashFunctions::Murmur64Dna, 42, false, 0);
+            mh.add_hash(7 + k as u64);
+            let mut sig = Signature::default();
+            sig.set_name(&format!("junk{}", k));
+            sig.push(Sketch::MinHash(mh));
+            sigs.push(sig);
+        }
+        sigs.extend(st.sigs[..n].iter().cloned());
+        let sel = sourmash::selection::Selection::builder().ksize(KSIZE).build();
+        Collection::from_sigs(sigs).unwrap().select(&sel).unwrap().try_into().unwrap()
+    } else {
+        st.nstage_dirs += 1;
+        let dir = st.tmp.as_ref().unwrap().path().join(format!("stage{}-{}", j, st.nstage_dirs));
+        std::fs::create_dir_all(&dir).unwrap();
+        let storage = FSStorage::new("", dir.to_str().unwrap());
+        let mut records: Vec<Record> = vec![];
+        for (i, sig) in st.sigs[..n].iter().enumerate() {
+            let loc = format!("{}", off + i);
+            storage.save_sig(&loc, sig.clone()).unwrap();
+            records.extend(Record::from_sig(sig, &loc));
+        }
+        Collection::new(Manifest::from(records), InnerStorage::new(storage)).try_into().unwrap()
+    }
+}
+
+/// `mk` / `ext`
+fn stage_step(st: &mut St, ext: bool, j: usize, mem: bool) -> String {
+    if j >= st.stages.len() {
+        return "no-stage".into();
+    }
+    let res: &str = if ext {
+        match st.handle.take() {
+            None => "closed",
+            // a read-only handle: `update` panics at its first write (the handle is gone)
+            Some((idx, _)) => {
+                let coll = stage_collection(st, j, mem);
+                match idx.update(coll) {
+                    Ok(mut idx) => {
+                        let r = if mem && idx.internalize_storage().is_err() { "err-intern" } else { "ok" };
+                        st.handle = Some((idx, false));
+                        r
+                    }
+                    Err(_) => "err",
+                }
+            }
+        }
+    } else {
+        st.handle = None;
+        let coll = stage_collection(st, j, mem);
+        match RevIndex::create(&st.idx, coll, false) {
+            Ok(mut idx) => {
+                let r = if mem && idx.internalize_storage().is_err() { "err-intern" } else { "ok" };
+                st.handle = Some((idx, false));
+                r
+            }
+            Err(_) => "err",
+        }
+    };
+    format!("{}|{}", res, observe(st))
 }
 
 fn reopen(st: &mut St, seq: &str) -> String {
@@ -733,6 +937,7 @@ fn step(st: &mut St, ws: &[&str]) -> String {
         }
         "obs" => observe(st),
         "reopen" => reopen(st, ws[1]),
+        "mk" | "ext" => stage_step(st, ws[0] == "ext", ws[1].parse().unwrap(), ws.get(2) == Some(&"mem")),
         _ => "bad-op".into(),
     }
 }
